@@ -231,6 +231,8 @@ def tla_val(v):
 
 
 def validate_one(scratch, idx, scen, events):
+    if not scen["init"]:
+        return {"sc": scen["id"], "status": "out-of-scope"}   # Dials.tla models the kernel with at least one watching source
     acts = actions_of(events)
     if acts is None:
         return {"sc": scen["id"], "status": "unconvertible"}
